@@ -59,6 +59,16 @@ def main():
         tot = len(mx["rows"])
         caught = sum(1 for r in mx["rows"] if r["verdict"] == "caught")
         out.append(f"\n{caught} of {tot} seeds caught.")
+    tt = load("tier_times.json")
+    if tt:
+        out.append("\n### 6.5 Wall time of every registered command, run end-to-end on the unchanged tree (`tools/run_all.sh`, 16 cores)\n")
+        out.append("| id | quick: wall s / exit | thorough: wall s / exit | thorough summary |")
+        out.append("|---|---|---|---|")
+        for c in sorted(tt):
+            q, t = tt[c].get("quick"), tt[c].get("thorough")
+            fmt = lambda x: f"{x['wall_s']} / {x['exit']}" if x else "–"
+            summ = re.sub(r"^C\d\d \[thorough\] ", "", (t or {}).get("summary", ""))[:150]
+            out.append(f"| {c} | {fmt(q)} | {fmt(t)} | {summ} |")
     text = "\n".join(out) + "\n"
     p = os.path.join(ROOT, "DESIGN.md")
     s = open(p).read()
